@@ -316,9 +316,22 @@ func (fr *Frame) dispatchNamed(cx *callCtx) []Term {
 		return s(cx)
 	}
 	if isPureName(cx.name) {
+		cx.funcArgEffects()
 		return cx.freshResults("pure")
 	}
 	return fr.havocCall(cx, "interface method")
+}
+
+// funcArgEffects: a library helper whose own code is pure may still run the functions it is handed
+// (lo.ForEach, lo.Find, ...): their writes are accounted for argument by argument.
+func (cx *callCtx) funcArgEffects() {
+	for i := range cx.argVs {
+		if i < len(cx.argTs) {
+			if _, isFn := cx.argTs[i].Underlying().(*types.Signature); isFn {
+				cx.closureEffects(i)
+			}
+		}
+	}
 }
 
 func (fr *Frame) dispatchStatic(cx *callCtx, clo *Closure) []Term {
@@ -342,6 +355,7 @@ func (fr *Frame) dispatchStatic(cx *callCtx, clo *Closure) []Term {
 		return s(cx)
 	}
 	if isPureName(cx.name) {
+		cx.funcArgEffects()
 		return cx.freshResults("pure")
 	}
 	// 3. inline
